@@ -102,6 +102,14 @@ where
                 // the wake-up may have been the notification for a new element:
                 // never leave without looking, or the element stays queued while
                 // other receivers keep sleeping
+                #[cfg(tiny_http_verif)]
+                simrt::probe(if queue.is_empty() {
+                    "queue.pop_timeout.gave_up_empty"
+                } else if result.timed_out() {
+                    "queue.pop_timeout.timed_out_with_element_queued"
+                } else {
+                    "queue.pop_timeout.woken_in_last_ms_with_element_queued"
+                });
                 return match queue.pop_front() {
                     Some(Control::Elem(value)) => Some(value),
                     Some(Control::Unblock) | None => None,
